@@ -189,6 +189,9 @@ class World(object):
         if wp.get('q_all_zero'):
             self.q_X[:] = 0.0
         self.q_ids = _names(rng, n_q, 'cell_', wp.get('odd_cell_ids', False))
+        if wp.get('long_late_id') and n_q >= 2:
+            # an identifier near the end of the file that is longer than every earlier one
+            self.q_ids[-1] = self.q_ids[-1] + '_with_a_much_longer_identifier_than_any_before'
 
     # -- marker table --------------------------------------------------------------------------
     def _gen_markers(self, rng, wp):
